@@ -309,7 +309,7 @@ theorem pushRow_inv {p r ty : String} {F0 : List Row} {h : Nat} {reg : Bool} {ra
   | some f =>
     unfold pushRow at hrec
     rw [hfile] at hrec
-    simp only at hrec
+    simp only [setTrace, withRow] at hrec
     have hs2 := sinv_set (tr' := { tr with file := some (f ++ [data]), mem := tr.mem.map (· ++ [data]) })
       hs1 htr (by simp [hm]) rfl
     by_cases hkey : (rank, t) = (r, ty)
